@@ -283,9 +283,7 @@ def dataflow(rep, s, tier):
     events = {}
 
     def eff_deref(fl, P, callee, args):
-        a = args[0]
-        v = fl.read(P, a.local, list(a.path)) if isinstance(a, F.Ref) else a
-        return F.fun("str_of", 1)(fl.term(v))
+        return F.fun("str_of", 1)(fl.term(fl.referent(P, args[0])))
 
     def eff_p2b(fl, P, callee, args):
         r = F.fun("p2b", 2)(fl.term(args[0]), fl.term(args[1]))
@@ -308,9 +306,7 @@ def dataflow(rep, s, tier):
         return r
 
     def eff_clone(fl, P, callee, args):
-        a = args[0]
-        v = fl.read(P, a.local, list(a.path)) if isinstance(a, F.Ref) else a
-        return fl.term(v)       # a clone is the same value
+        return fl.term(fl.referent(P, args[0]))       # a clone is the same value
     fl = F.Flow(fn, {r"String as (std::ops::)?Deref>::deref$": eff_deref, r"pos_to_byte_index$": eff_p2b,
                      r"String::replace_range": eff_replace, r"as Iterator>::next$": eff_next, r"String as Clone>::clone$": eff_clone})
     try:
